@@ -13,49 +13,32 @@ Proof. induction ms as [|m r IH]; intros; cbn [struct_ids_from length]; [reflexi
 Lemma struct_ids_length : forall h ms, length (struct_ids h ms) = length ms.
 Proof. intros. apply struct_ids_from_length. Qed.
 
-(* Final / Appendable without hashid: the ids are the member indices, whatever
-   `id = ...` says *)
-Lemma ids_index_from : forall h ms idx next,
-  s_ext h <> Mutable -> no_hashid ms = true ->
-  struct_ids_from h idx next ms = map Z.of_nat (seq idx (length ms)).
+Definition no_explicit_id (ms : list mhead) : bool :=
+  forallb (fun m => match m_id m with None => true | _ => false end) ms.
+
+(* without hashid and without explicit ids: 0, 1, 2, ... in every extensibility kind *)
+Lemma ids_auto_from : forall h ms idx next,
+  no_hashid ms = true -> no_explicit_id ms = true ->
+  struct_ids_from h idx next ms =
+  map (fun k => match s_ext h with Mutable => next + Z.of_nat k | _ => Z.of_nat (idx + k) end) (seq 0 (length ms)).
 Proof.
-  induction ms as [|m r IH]; intros idx next Hx Hn; [reflexivity|].
-  cbn [no_hashid forallb] in Hn. apply andb_true_iff in Hn as [Hm Hr].
+  induction ms as [|m r IH]; intros idx next Hn Hi; [reflexivity|].
+  cbn [no_hashid no_explicit_id forallb] in Hn, Hi. apply andb_true_iff in Hn as [Hm Hr]. apply andb_true_iff in Hi as [Hi Hir].
   apply negb_true_iff in Hm.
   cbn [struct_ids_from length seq map]. rewrite Hm.
-  f_equal.
-  - destruct (s_ext h); try reflexivity. congruence.
-  - apply IH; assumption.
-Qed.
-
-Lemma ids_are_indices : forall h ms,
-  s_ext h <> Mutable -> no_hashid ms = true ->
-  struct_ids h ms = map Z.of_nat (seq 0 (length ms)).
-Proof. intros. now apply ids_index_from. Qed.
-
-(* Mutable without explicit ids and without hashid: 0, 1, 2, ... *)
-Lemma ids_auto_from : forall h ms idx next,
-  s_ext h = Mutable -> no_hashid ms = true -> forallb (fun m => match m_id m with None => true | _ => false end) ms = true ->
-  struct_ids_from h idx next ms = map (fun k => next + Z.of_nat k) (seq 0 (length ms)).
-Proof.
-  induction ms as [|m r IH]; intros idx next Hx Hn Hi; [reflexivity|].
-  cbn [no_hashid forallb] in Hn, Hi. apply andb_true_iff in Hn as [Hm Hr]. apply andb_true_iff in Hi as [Hi Hir].
-  apply negb_true_iff in Hm.
-  cbn [struct_ids_from length seq map]. rewrite Hm, Hx.
   destruct (m_id m); [discriminate|].
-  f_equal; [lia|].
-  rewrite IH by assumption. rewrite <- seq_shift, map_map. apply map_ext. intros. lia.
+  rewrite IH by assumption. rewrite <- seq_shift, map_map.
+  f_equal.
+  - destruct (s_ext h); lia.
+  - apply map_ext. intros k. destruct (s_ext h); lia.
 Qed.
 
 Lemma ids_sequential : forall h ms,
-  no_hashid ms = true ->
-  (s_ext h <> Mutable \/ forallb (fun m => match m_id m with None => true | _ => false end) ms = true) ->
+  no_hashid ms = true -> no_explicit_id ms = true ->
   struct_ids h ms = map Z.of_nat (seq 0 (length ms)).
 Proof.
-  intros h ms Hn [Hx|Hi].
-  - now apply ids_are_indices.
-  - destruct (s_ext h) eqn:E; try (apply ids_are_indices; [congruence|assumption]).
-    unfold struct_ids. rewrite ids_auto_from by assumption. apply map_ext. intros. lia.
+  intros h ms Hn Hi. unfold struct_ids. rewrite ids_auto_from by assumption.
+  apply map_ext. intros k. destruct (s_ext h); lia.
 Qed.
 
 Definition clash_h_mut : shead := mkS "Reset" None Mutable false false.
@@ -66,23 +49,20 @@ Lemma nth_ids_from : forall h ms idx next k m,
   nth_error ms k = Some m ->
   exists nx, nth_error (struct_ids_from h idx next ms) k =
     Some (if m_hashid m then hash_id (member_name h (idx + k) m)
-          else match s_ext h with
-               | Mutable => match m_id m with Some i => i | None => nx end
-               | _ => Z.of_nat (idx + k)
+          else match m_id m with
+               | Some i => i
+               | None => match s_ext h with Mutable => nx | _ => Z.of_nat (idx + k) end
                end).
 Proof.
   induction ms as [|m0 r IH]; intros idx next k m Hk; [destruct k; discriminate|].
   destruct k as [|k].
   - cbn in Hk. injection Hk as <-. exists next. cbn [struct_ids_from nth_error]. now rewrite Nat.add_0_r.
   - cbn [nth_error] in Hk. cbn [struct_ids_from nth_error].
-    destruct (IH (S idx) (if m_hashid m0 then next else
-                  (if m_hashid m0 then hash_id (member_name h idx m0) else
-                   match s_ext h with Mutable => match m_id m0 with Some i => i | None => next end | _ => Z.of_nat idx end) + 1)
-                 k m Hk) as [nx Hnx].
+    match goal with |- context [struct_ids_from h (S idx) ?n r] => destruct (IH (S idx) n k m Hk) as [nx Hnx] end.
     exists nx. rewrite Hnx. now replace (S idx + k)%nat with (idx + S k)%nat by lia.
 Qed.
 
-(* `hashid`: the id is the little-endian u32 of the first four MD5 bytes of the name *)
+(* `hashid`: the id is the little-endian u32 of the first four MD5 bytes of the name, & 0x0FFFFFFF *)
 Lemma ids_hashed : forall h ms k m,
   nth_error ms k = Some m -> m_hashid m = true ->
   nth_error (struct_ids h ms) k = Some (hash_id (member_name h k m)).
@@ -106,22 +86,22 @@ Proof.
   split; [exact (ids_hashed h ms k m Hk Hh)|]. split; [reflexivity|apply hash_id_28bit].
 Qed.
 
-(* Mutable: an explicit id is the member's id *)
-Lemma ids_explicit_mutable : forall h ms k m i,
-  s_ext h = Mutable -> nth_error ms k = Some m -> m_hashid m = false -> m_id m = Some i ->
+(* an explicit id is the member's id, in every extensibility kind (fix 7ee9e78) *)
+Lemma ids_explicit : forall h ms k m i,
+  nth_error ms k = Some m -> m_hashid m = false -> m_id m = Some i ->
   nth_error (struct_ids h ms) k = Some i.
 Proof.
-  intros h ms k m i Hx Hk Hh Hi. destruct (nth_ids_from h ms 0 0 k m Hk) as [nx E].
-  unfold struct_ids. rewrite E, Hh, Hx, Hi. reflexivity.
+  intros h ms k m i Hk Hh Hi. destruct (nth_ids_from h ms 0 0 k m Hk) as [nx E].
+  unfold struct_ids. rewrite E, Hh, Hi. reflexivity.
 Qed.
 
-(* Final / Appendable: an explicit id is ignored, the id is the index *)
-Lemma ids_explicit_ignored : forall h ms k m,
-  s_ext h <> Mutable -> nth_error ms k = Some m -> m_hashid m = false ->
+(* Final / Appendable: an un-annotated member gets its index, whatever ids precede it *)
+Lemma ids_auto_is_index : forall h ms k m,
+  s_ext h <> Mutable -> nth_error ms k = Some m -> m_hashid m = false -> m_id m = None ->
   nth_error (struct_ids h ms) k = Some (Z.of_nat k).
 Proof.
-  intros h ms k m Hx Hk Hh. destruct (nth_ids_from h ms 0 0 k m Hk) as [nx E].
-  unfold struct_ids. rewrite E, Hh. destruct (s_ext h); try reflexivity. congruence.
+  intros h ms k m Hx Hk Hh Hi. destruct (nth_ids_from h ms 0 0 k m Hk) as [nx E].
+  unfold struct_ids. rewrite E, Hh, Hi. destruct (s_ext h); try reflexivity. congruence.
 Qed.
 
 (* the sequential rule of a Mutable structure: an un-annotated member that follows an
@@ -183,18 +163,17 @@ Proof.
   intros x y. apply Nat2Z.inj.
 Qed.
 
-(* ids_distinct, un-hashed members *)
+(* ids_distinct, un-hashed members: no explicit ids at all, or a Mutable structure whose
+   explicit ids ascend.  (In a Final/Appendable structure an explicit id can collide with
+   the INDEX of another member: see ids_clash_explicit_vs_index.) *)
 Lemma ids_distinct_unhashed : forall h ms,
   no_hashid ms = true ->
-  (s_ext h <> Mutable \/ ids_ascending ms = true) ->
+  (no_explicit_id ms = true \/ (s_ext h = Mutable /\ ids_ascending ms = true)) ->
   NoDup (struct_ids h ms).
 Proof.
-  intros h ms Hn [Hx|Ha].
-  - rewrite ids_are_indices by assumption. apply NoDup_map_of_nat_seq.
-  - destruct (s_ext h) eqn:E.
-    + rewrite ids_are_indices by (congruence || assumption). apply NoDup_map_of_nat_seq.
-    + rewrite ids_are_indices by (congruence || assumption). apply NoDup_map_of_nat_seq.
-    + apply (ids_ascending_lower h ms 0 0 E Hn Ha).
+  intros h ms Hn [Hi|[Hx Ha]].
+  - rewrite ids_sequential by assumption. apply NoDup_map_of_nat_seq.
+  - apply (ids_ascending_lower h ms 0 0 Hx Hn Ha).
 Qed.
 
 Lemma nodupb_NoDup : forall l, nodupb l = true <-> NoDup l.
@@ -227,6 +206,11 @@ Lemma ids_clash_accepted :
             roundtrip clash_decl (VStruct [VPrim 1; VPrim 2]) = Ok (Some (VStruct [VPrim 2; VPrim 0])).
 Proof. eexists. split; [reflexivity|]. split; vm_compute; reflexivity. Qed.
 
+(* Final/Appendable: the explicit id of one member collides with the index of another *)
+Lemma ids_clash_explicit_vs_index :
+  struct_ids (mkS "FinalClash" None Final false false) [mk_id "a" (Some 1); mk_id "b" None] = [1; 1].
+Proof. reflexivity. Qed.
+
 (* automatic id after an explicit one collides with a later explicit id *)
 Lemma ids_clash_auto_after_explicit :
   struct_ids clash_h [clash_m "a" (Some 5) false; clash_m "b" None false; clash_m "c" (Some 6) false] = [5; 6; 6].
@@ -234,46 +218,76 @@ Proof. reflexivity. Qed.
 
 (* ------------------------------------------------------------ description *)
 
-Lemma struct_mdescs_spec : forall h ms idx ids,
-  length ids = length ms ->
-  map md_name (struct_mdescs h idx ms ids) = names_from h idx (map fst ms) /\
-  map md_id (struct_mdescs h idx ms ids) = ids /\
-  map md_index (struct_mdescs h idx ms ids) = map Z.of_nat (seq idx (length ms)) /\
-  map md_type (struct_mdescs h idx ms ids) = map (fun m => sig_of (snd m)) ms /\
-  map md_key (struct_mdescs h idx ms ids) = map (fun m => m_key (fst m)) ms /\
-  map md_optional (struct_mdescs h idx ms ids) = map (fun m => m_optional (fst m)) ms /\
-  map md_must_understand (struct_mdescs h idx ms ids) = map (fun m => m_key (fst m)) ms /\
-  map md_tc (struct_mdescs h idx ms ids) = map (fun m => tc_of (m_tc (fst m))) ms /\
-  Forall (fun d => md_label d = [] /\ md_default_label d = false) (struct_mdescs h idx ms ids).
+Lemma published_length : forall {A B} hs (xs : list A) (ys : list B),
+  length xs = length hs -> length ys = length hs -> length (published hs xs) = length (published hs ys).
 Proof.
-  induction ms as [|[m t] r IH]; intros idx ids Hl.
+  induction hs as [|m r IH]; intros xs ys Hx Hy; destruct xs, ys; try discriminate; [reflexivity|].
+  cbn [published]. injection Hx as Hx. injection Hy as Hy. destruct (m_ns m); cbn [length]; auto.
+Qed.
+
+Lemma published_map : forall {A B} (f : A -> B) hs xs, published hs (map f xs) = map f (published hs xs).
+Proof.
+  induction hs as [|m r IH]; intros [|x xs]; try reflexivity. cbn [published map].
+  destruct (m_ns m); cbn [map]; now rewrite IH.
+Qed.
+
+(* the published members are the declared ones without the non_serialized ones, in order *)
+Lemma struct_mdescs_spec : forall h ms idx pidx ids,
+  length ids = length ms ->
+  let hs := map fst ms in
+  map md_name (struct_mdescs h idx pidx ms ids) = published hs (names_from h idx hs) /\
+  map md_id (struct_mdescs h idx pidx ms ids) = published hs ids /\
+  map md_index (struct_mdescs h idx pidx ms ids) = map Z.of_nat (seq pidx (length (published hs hs))) /\
+  map md_type (struct_mdescs h idx pidx ms ids) = published hs (map (fun m => sig_of (snd m)) ms) /\
+  map md_key (struct_mdescs h idx pidx ms ids) = published hs (map m_key hs) /\
+  map md_optional (struct_mdescs h idx pidx ms ids) = published hs (map m_optional hs) /\
+  map md_must_understand (struct_mdescs h idx pidx ms ids) = published hs (map m_key hs) /\
+  map md_tc (struct_mdescs h idx pidx ms ids) = published hs (map (fun m => tc_of (m_tc m)) hs) /\
+  Forall (fun d => md_label d = [] /\ md_default_label d = false) (struct_mdescs h idx pidx ms ids).
+Proof.
+  induction ms as [|[m t] r IH]; intros idx pidx ids Hl.
   - destruct ids; [|discriminate]. cbn. repeat split; constructor.
   - destruct ids as [|id ids]; [discriminate|]. cbn [length] in Hl. injection Hl as Hl.
-    destruct (IH (S idx) ids Hl) as (H1 & H2 & H3 & H4 & H5 & H6 & H7 & H8 & H9).
-    cbn [struct_mdescs map names_from fst snd length seq md_name md_id md_index md_type md_key md_optional
-         md_must_understand md_tc].
-    rewrite H1, H2, H3, H4, H5, H6, H7, H8.
-    repeat split; try reflexivity. constructor; [split; reflexivity|exact H9].
+    cbn [map fst snd struct_mdescs names_from published].
+    destruct (m_ns m).
+    + exact (IH (S idx) pidx ids Hl).
+    + destruct (IH (S idx) (S pidx) ids Hl) as (H1 & H2 & H3 & H4 & H5 & H6 & H7 & H8 & H9).
+      cbn [map length seq md_name md_id md_index md_type md_key md_optional md_must_understand md_tc].
+      rewrite H1, H2, H3, H4, H5, H6, H7, H8.
+      repeat split; try reflexivity. constructor; [split; reflexivity|exact H9].
 Qed.
 
 Lemma describe_struct : forall h ms,
+  let hs := map fst ms in
   exists d, describe (TStruct h ms) = Some d /\
     td_kind d = K_STRUCTURE /\ td_name d = tname (s_rname h) (s_cname h) /\
     td_ext d = s_ext h /\ td_nested d = s_nested h /\ td_disc d = None /\
-    map md_name (td_members d) = names_from h 0 (map fst ms) /\
-    map md_id (td_members d) = struct_ids h (map fst ms) /\
-    map md_index (td_members d) = map Z.of_nat (seq 0 (length ms)) /\
-    map md_type (td_members d) = map (fun m => sig_of (snd m)) ms /\
-    map md_key (td_members d) = map (fun m => m_key (fst m)) ms /\
-    map md_optional (td_members d) = map (fun m => m_optional (fst m)) ms /\
-    map md_must_understand (td_members d) = map (fun m => m_key (fst m)) ms /\
-    map md_tc (td_members d) = map (fun m => tc_of (m_tc (fst m))) ms.
+    map md_name (td_members d) = published hs (names_from h 0 hs) /\
+    map md_id (td_members d) = published hs (struct_ids h hs) /\
+    map md_index (td_members d) = map Z.of_nat (seq 0 (length (published hs hs))) /\
+    map md_type (td_members d) = published hs (map (fun m => sig_of (snd m)) ms) /\
+    map md_key (td_members d) = published hs (map m_key hs) /\
+    map md_optional (td_members d) = published hs (map m_optional hs) /\
+    map md_must_understand (td_members d) = published hs (map m_key hs) /\
+    map md_tc (td_members d) = published hs (map (fun m => tc_of (m_tc m)) hs).
 Proof.
-  intros h ms. eexists. split; [reflexivity|].
+  intros h ms hs. eexists. split; [reflexivity|].
   cbn [td_kind td_name td_ext td_nested td_disc td_members].
   assert (Hl : length (struct_ids h (map fst ms)) = length ms) by (rewrite struct_ids_length; apply map_length).
-  destruct (struct_mdescs_spec h ms 0 _ Hl) as (H1 & H2 & H3 & H4 & H5 & H6 & H7 & H8 & _).
+  destruct (struct_mdescs_spec h ms 0 0 _ Hl) as (H1 & H2 & H3 & H4 & H5 & H6 & H7 & H8 & _).
   repeat split; assumption.
+Qed.
+
+(* a non_serialized member is not published: it has no entry in the description *)
+Lemma non_serialized_not_published : forall h ms d,
+  describe (TStruct h ms) = Some d ->
+  length (td_members d) = length (filter (fun m => negb (m_ns (fst m))) ms).
+Proof.
+  intros h ms d Hd. destruct (describe_struct h ms) as (d' & Hd' & _ & _ & _ & _ & _ & _ & _ & Hix & _).
+  rewrite Hd in Hd'. injection Hd' as <-.
+  rewrite <- (map_length md_index), Hix, map_length, seq_length.
+  clear. induction ms as [|[m t] r IH]; [reflexivity|]. cbn [map fst published filter].
+  destruct (m_ns m); cbn [negb length]; now rewrite IH.
 Qed.
 
 Lemma union_mdescs_spec : forall vs idx,
@@ -334,19 +348,21 @@ Proof.
 Qed.
 
 (* the description is a function of the declaration that loses nothing of what it
-   is meant to carry: equal descriptions imply equal names, order, flags, ids *)
+   is meant to carry: equal descriptions imply equal names, order, flags, ids of the
+   published members *)
 Lemma describe_struct_injective_on_attributes : forall h ms h' ms',
   describe (TStruct h ms) = describe (TStruct h' ms') ->
+  let hs := map fst ms in let hs' := map fst ms' in
   tname (s_rname h) (s_cname h) = tname (s_rname h') (s_cname h') /\ s_ext h = s_ext h' /\ s_nested h = s_nested h' /\
-  names_from h 0 (map fst ms) = names_from h' 0 (map fst ms') /\
-  map (fun m => m_key (fst m)) ms = map (fun m => m_key (fst m)) ms' /\
-  map (fun m => m_optional (fst m)) ms = map (fun m => m_optional (fst m)) ms' /\
-  map (fun m => sig_of (snd m)) ms = map (fun m => sig_of (snd m)) ms' /\
-  struct_ids h (map fst ms) = struct_ids h' (map fst ms').
+  published hs (names_from h 0 hs) = published hs' (names_from h' 0 hs') /\
+  published hs (map m_key hs) = published hs' (map m_key hs') /\
+  published hs (map m_optional hs) = published hs' (map m_optional hs') /\
+  published hs (map (fun m => sig_of (snd m)) ms) = published hs' (map (fun m => sig_of (snd m)) ms') /\
+  published hs (struct_ids h hs) = published hs' (struct_ids h' hs').
 Proof.
-  intros h ms h' ms' E.
+  intros h ms h' ms' E hs hs'.
   destruct (describe_struct h ms) as (d & Hd & _ & Hn & Hx & Hne & _ & H1 & H2 & _ & H4 & H5 & H6 & _).
   destruct (describe_struct h' ms') as (d' & Hd' & _ & Hn' & Hx' & Hne' & _ & H1' & H2' & _ & H4' & H5' & H6' & _).
-  rewrite Hd, Hd' in E. injection E as E. subst d'.
+  rewrite Hd, Hd' in E. injection E as E. subst d'. subst hs hs'. cbv zeta in *.
   repeat split; congruence.
 Qed.
